@@ -528,7 +528,6 @@ func dirProjection2(snap map[string]string, files []string, versions map[string]
 	return m
 }
 
-
 // ---------------------------------------------------------------------------
 // generated crash scenarios
 // ---------------------------------------------------------------------------
